@@ -268,7 +268,11 @@ func (p *pogsRun) valueCase(i uint64, rng *common.RNG, embed bool) {
 	}
 	if !bytes.Equal(msgBytes(msgA), msgBytes(msgB)) {
 		culprit := p.findWrittenMember(m, gv, msgBytes(msgA), g)
-		rec.Violate("pogs/inactive-member-written/"+culprit, fmt.Sprintf("pogs.Insert of %s writes different bytes when fields outside the active member (%s) hold garbage", m.name, member), i,
+		sig := "pogs/inactive-member-written/" + culprit
+		if infoOf(m.typ).members == nil || !isUnionMember(m, culprit) {
+			sig = "pogs/unmapped-field-written/" + culprit
+		}
+		rec.Violate(sig, fmt.Sprintf("pogs.Insert of %s writes different bytes when fields outside the active member (%s) / the mapping hold garbage", m.name, member), i,
 			fmt.Sprintf("clean: %x\ndirty: %x\ndirty value: %s", trunc(msgBytes(msgA), 400), trunc(msgBytes(msgB), 400), truncS(dumpGo(dirty, 0), 1500)), input)
 		return
 	}
@@ -288,10 +292,22 @@ func (p *pogsRun) valueCase(i uint64, rng *common.RNG, embed bool) {
 	}
 }
 
+// isUnionMember reports whether "Schema.name" names a union member of the
+// mapping's schema type (as opposed to an omitted / ignored Go field).
+func isUnionMember(m *goMapping, qualified string) bool {
+	name := strings.TrimPrefix(qualified, m.schema+".")
+	_, ok := unionMembers[m.schema][name]
+	return ok
+}
+
 // findWrittenMember poisons one unused field at a time to name the one whose
 // garbage reaches the message.
 func (p *pogsRun) findWrittenMember(m *goMapping, gv reflect.Value, cleanBytes []byte, g *ggen) string {
 	ti := infoOf(m.typ)
+	qual := m.schema
+	if ti.members == nil {
+		qual = m.name
+	}
 	var names []string
 	for _, path := range ti.leafPaths() {
 		key := pathKey(path)
@@ -306,10 +322,10 @@ func (p *pogsRun) findWrittenMember(m *goMapping, gv reflect.Value, cleanBytes [
 		g.poisonInactive(d.Elem(), name)
 		msg, _, err, pn := insertInto(m, m.size, d.Interface())
 		if pn != nil || err != nil || !bytes.Equal(msgBytes(msg), cleanBytes) {
-			return m.schema + "." + name
+			return qual + "." + name
 		}
 	}
-	return m.schema + ".nested"
+	return qual + ".nested"
 }
 
 func (p *pogsRun) poisonExtract(i uint64, m *goMapping, s capnp.Struct, fresh reflect.Value, g *ggen, tag string, input interface{}) bool {
@@ -336,7 +352,14 @@ func (p *pogsRun) poisonExtract(i uint64, m *goMapping, s capnp.Struct, fresh re
 		rec.Count("poison_extract_checked", 1)
 		return true
 	case strings.HasPrefix(kind, "touched/"):
-		rec.Violate("pogs/inactive-member-touched/"+m.schema+"."+strings.TrimPrefix(kind, "touched/"),
+		q := strings.TrimPrefix(kind, "touched/")
+		fsig := "pogs/unmapped-field-touched/"
+		if k := strings.Index(q, "."); k >= 0 {
+			if _, ok := unionMembers[q[:k]][q[k+1:]]; ok {
+				fsig = "pogs/inactive-member-touched/"
+			}
+		}
+		rec.Violate(fsig+q,
 			fmt.Sprintf("pogs.Extract into a pre-filled %s changed a Go field outside the active member / the mapping: %s", m.name, d), i,
 			"before: "+truncS(dumpGo(snap, 0), 1500)+"\nafter:  "+truncS(dumpGo(tgt, 0), 1500), input)
 	default:
